@@ -492,8 +492,12 @@ func main() {
 									}
 								}
 							}
-							if tv, ok := pi.info.Types[vs.Values[i]]; ok && tv.Value != nil && gd.Tok == token.CONST {
-								consts[pi.pkg.Name()+"."+n.Name] = tv.Value.ExactString()
+						}
+						// constants by their definitions (iota groups repeat one expression: the expression's
+						// recorded value is that of its last use, the definition's is right)
+						for _, n := range vs.Names {
+							if c, ok := pi.info.Defs[n].(*types.Const); ok && gd.Tok == token.CONST && n.Name != "_" {
+								consts[pi.pkg.Name()+"."+n.Name] = c.Val().ExactString()
 							}
 						}
 					}
@@ -526,6 +530,7 @@ func main() {
 		}
 		cb.WriteString("].\n")
 		os.WriteFile(filepath.Join(*out, "Consts.v"), []byte(cb.String()), 0o644)
+		os.WriteFile(filepath.Join(*out, "PureFuns.v"), []byte(translatePure(*repo, load)), 0o644)
 	}
 
 	// ---------------------------------------------------------------- package-level state
